@@ -599,7 +599,7 @@ func (w *dworld) tx(ri int) {
 	w.c.Count("doc-tx-committed")
 }
 
-// mutate returns a target derived from v: values changed, keys added/removed, types changed at a path, arrays grown/shrunk
+// mutate returns a target derived from v: values changed, keys added/removed, types changed at a path, arrays grown/shrunk/reordered
 func (w *dworld) mutate(v interface{}, depth int) interface{} {
 	rng := w.c.Rng
 	switch t := v.(type) {
@@ -631,6 +631,9 @@ func (w *dworld) mutate(v interface{}, depth int) interface{} {
 		}
 		for rng.Intn(3) == 0 {
 			out = append(out, w.rndJSON(depth+1))
+		}
+		if len(out) > 1 && rng.Intn(4) == 0 { // the same elements in another order
+			rng.Shuffle(len(out), func(i, j int) { out[i], out[j] = out[j], out[i] })
 		}
 		return out
 	}
@@ -812,6 +815,41 @@ func (w *dworld) snapshotCheck(ri int) {
 			w.c.Violate("C10", "document-continuation-differs", fmt.Sprintf("after %d further operations the restored document reads %s, the original %s", len(rest), jsonStr(nd.GetValue()), jsonStr(r.value())), w.desc)
 		}
 	}
+	// ... and local calls on the restored instance alone (the original must stay as the model knows it): error paths answer
+	// with an error as on any document, and an aborted transaction brings the restored instance back to the imported state
+	want := r.value()
+	var conts [][]interface{}
+	containers(want, nil, &conts)
+	for _, cp := range conts {
+		if _, isObj := getAt(want, cp).(map[string]interface{}); !isObj {
+			continue
+		}
+		sub, ok := walk(nd, cp)
+		if !ok {
+			continue
+		}
+		var derr error
+		pp, pmsg := guarded(func() { _, derr = sub.DeleteInObject("never-there") })
+		if pp || isNilErr(derr) {
+			w.c.Violate("C10", "restored-document-error-path-differs", fmt.Sprintf("deleting a missing key of the object at %s of a restored document: panic=%v %s err=%v (any document answers with an error)", pathStr(cp), pp, pmsg, derr), w.desc)
+			return
+		}
+	}
+	pa, amsg := guarded(func() {
+		_ = nd.Transaction("c10", func(d orda.DocumentInTx) error {
+			root := d.(orda.Document)
+			if _, isObj := want.(map[string]interface{}); isObj {
+				_, _ = root.PutToObject("c10-a", w.rndJSON(1))
+				_, _ = root.PutToObject("c10-b", "x")
+			} else {
+				_, _ = root.InsertToArray(0, "x", w.rndJSON(1))
+			}
+			return fmt.Errorf("abort")
+		})
+	})
+	if pa || !reflect.DeepEqual(plainCopy(nd.GetValue()), want) {
+		w.c.Violate("C10", "restored-document-abort-differs", fmt.Sprintf("after an aborted transaction the restored document reads %s, the original (and the restored one before it) %s %s", jsonStr(nd.GetValue()), jsonStr(want), amsg), w.desc)
+	}
 	w.c.Count("doc-snapshot-checked")
 }
 
@@ -875,7 +913,7 @@ func sliceDoc(c *Ctx) {
 	if n == 0 {
 		n = 200
 	}
-	c.Res.Rule = "random histories on 2..4 real Document replicas: calls on a random container of the current tree (put/delete in objects, insert/update/delete in arrays, valid and invalid, nested values up to depth 3, keys needing JSON-pointer escaping), transactions (commit/abort), PatchByJSON to targets derived from the current value (values changed, keys dropped/added, types changed, arrays grown/shrunk), pushes to one log, deliveries in log order, snapshot export/import with continuation; oracles: plain JSON value transformed by the same call, equality of replicas with equal applied sets, abort restores value/id/buffer, patch reads exactly the target as one unit; non-trivial = foreign operations arrived while own ones were unpushed, or a patch changed the value"
+	c.Res.Rule = "random histories on 2..4 real Document replicas: calls on a random container of the current tree (put/delete in objects, insert/update/delete in arrays, valid and invalid, nested values up to depth 3, keys needing JSON-pointer escaping), transactions (commit/abort), PatchByJSON to targets derived from the current value (values changed, keys dropped/added, types changed, arrays grown/shrunk/reordered), pushes to one log, deliveries in log order, snapshot export/import with continuation; oracles: plain JSON value transformed by the same call, equality of replicas with equal applied sets, abort restores value/id/buffer, patch reads exactly the target as one unit; non-trivial = foreign operations arrived while own ones were unpushed, or a patch changed the value"
 	var cases []string
 	for h := 0; h < n; h++ {
 		nrep := 2 + c.Rng.Intn(3)
